@@ -341,7 +341,15 @@ example : (((List.range 4).foldl (fun (h : Ht2 Nat) _ => (h.insert auVe none fal
 /-- **Refinement for every history** (keyed use: the callback is one equivalence relation, inserts are checked, resizing
 enabled): whatever sequence of `insert`/`remove`/`find` is applied, with whatever hashes (collisions included), the
 replies are those of the abstract finite set and the contents agree as multisets; the simulation relation includes
-the representation invariant. -/
+the representation invariant.
+Scope ("keyed use" = hypothesis `IsEquiv`: the callback ignores `mod` and is an equivalence relation).  It is met by callbacks
+such as pointer / key equality (XPath set hash, LYB sibling tables, pattern tables).  It is met by NEITHER callback of the
+dictionary — `lydict_resize_val_eq` (`resizeEq`) depends on `mod`, `lydict_val_eq` (`valEq len`) is not reflexive (a string of
+another length is not "equal" to itself); `ht_refines_spec_vacuous_for_dict_callbacks` proves both — and not by
+`lyd_hash_table_val_equal` (pointer equality for `mod = 1`, value equality for `mod = 0`).  So this theorem is NOT a statement about
+the dictionary or the data-tree children tables: for those uses the per-operation theorems above (`ht_inv_preserved`, `ht_find_iff`,
+`ht_insert_exists`, `ht_insert_adds`, `ht_remove_spec`, which hold for every callback) apply, and the dictionary has its own
+refinement theorems below (`dict_refcount_spec*`). -/
 theorem ht_refines_spec (ve : VEq α) (e : α → α → Bool) (he : IsEquiv ve e) (ops : List (HOp α)) (h : Ht2 α)
     (l : List (UInt32 × α)) (hr : Rel ve h l) :
     (h.run ve ops).1 = (LyHt.specRun e l ops).1 ∧ (h.run ve ops).2.toList ~ (LyHt.specRun e l ops).2 ∧
@@ -372,14 +380,10 @@ example : ((Ht2.new 8 1 : Ht2 Nat).run (fun _ a b => a % 10 == b % 10) [.ins 7 3
       ⟨fun _ _ _ => rfl, fun a => by simp, fun a b h => by simp only [beq_iff_eq] at *; omega,
        fun a b c h1 h2 => by simp only [beq_iff_eq] at *; omega⟩ _ _ [] (auNew_rel _ 8)).1, by decide⟩
 
--- AUDIT: scope of `ht_refines_spec` (by design, stated in the docstring as "keyed use"; recorded here so that nobody reads it
--- as a statement about the dictionary): hypothesis `IsEquiv` (the callback ignores `mod` and is an equivalence relation) is
--- met by callbacks such as pointer / key equality (XPath set hash, LYB sibling tables, pattern tables) but by NEITHER callback
--- of the dictionary — `lydict_resize_val_eq` (`resizeEq`) depends on `mod`, `lydict_val_eq` (`valEq len`) is not reflexive
--- (a string of another length is not "equal" to itself) — and not by `lyd_hash_table_val_equal` (pointer equality for
--- `mod = 1`, value equality for `mod = 0`).  For those uses the per-operation theorems above (`ht_inv_preserved`, `ht_find_iff`,
--- `ht_insert_exists`, `ht_insert_adds`, `ht_remove_spec`, which hold for every callback) apply, and the dictionary has its
--- own refinement theorems below (`dict_refcount_spec*`).  No repair needed.
+-- AUDIT (resolved): the scope of `ht_refines_spec` (which callbacks meet `IsEquiv`, which do not) is spelled out in its docstring.
+/-- **scope of `ht_refines_spec`** (audit theorem): neither callback of the dictionary meets its hypothesis `IsEquiv`, whatever the
+abstract relation `e` — `lydict_resize_val_eq` (`resizeEq`) depends on `mod`, `lydict_val_eq` (`valEq len`) is not reflexive for any
+`len`.  `ht_refines_spec` therefore says nothing about the dictionary's use of the hash table (that is `dict_refcount_spec*`). -/
 theorem ht_refines_spec_vacuous_for_dict_callbacks (e : DRec → DRec → Bool) :
     ¬ IsEquiv resizeEq e ∧ ∀ len, ¬ IsEquiv (valEq len) e := by
   constructor
